@@ -24,6 +24,11 @@ open Refinery Refinery.Model.Transmit
 theorem limits : (maxB : Int) = Gen.Transmit.apiMaxBatchSize ∧ (maxE : Int) = Gen.Transmit.apiMaxEventSize ∧
     reserve + maxE ≤ maxB := by decide
 
+/-- **wire_rate_is_event_rate** — the sample rate written into a forwarded event is the event's own
+sample rate, for every rate an `int64` can hold (in particular beyond 2^31 and 2^32). -/
+theorem wire_rate_is_event_rate (rate : Nat) (h : rate < 2 ^ 63) : wireRate rate = rate := by
+  simp [wireRate, h]
+
 /-! ## splitting (any list of events, any sizes) -/
 
 /-- **split_terminates** — `sendBatch`'s outer loop always makes progress: with fuel `length + 1` it
